@@ -165,6 +165,9 @@ def gen(seed, min_ops=3, max_ops=8, kinds=None, nsub=1, uniform_mode=None):
       while sub is None:
         sub = gen_sub(rnd, rnd.randint(min_ops, max_ops), kinds, nin=rnd.choice([1, 1, 2]))
       subs.append(sub)
+    if nsub > 1 and rnd.random() < 0.15:
+      # an identity signature: a subgraph without operators whose single tensor is input and output
+      subs[rnd.randrange(nsub)] = {"ops": [], "trole": ["act"], "tbuf": [0], "tsh": [[1, 2]], "gins": [0], "gouts": [0], "sigrev": False}
     mode = []
     for sub in subs:
       ms = []
